@@ -174,8 +174,10 @@ def mesh_diamond_rerank_case(name, rng):
     c = gen_mesh_diamond(rng, name)
     swap = rng.random() < 0.5
     D, C = (1, 2) if not swap else (2, 1)
-    c.cscripts[1] = ["0|[1]=10,[2]=20,[3]=30"] + [f"{t}|[3]={30 + t % 9}" for t in (5, 7, 8, 11, 13)] + ["9|[1]=11,[2]=21"]
-    c.cscripts[2] = [f"0|[{D}]=3{C:02d},[{C}]=303", "3|[3]=404"]
+    single = rng.random() < 0.5            # C reads B once (its second reference names a key that never exists) or twice
+    c.cscripts[1] = ["0|[1]=10,[2]=20,[3]=30", "3|[4]=40"] + [f"{t}|[3]={30 + t % 9}" for t in (5, 8, 11)] + \
+                    [f"{t}|[1]={10 + t % 9},[2]={20 + t % 9}" for t in (6, 9, 13)]
+    c.cscripts[2] = [f"0|[{D}]=3{C:02d},[{C}]={300 if single else 303}", "3|[3]=404"]
     c.end = 16
     return c
 
